@@ -214,6 +214,8 @@ VARIANTS = [
     V("twin: numbagg arg-reduction refusal with its disjuncts swapped", ("C06", "C19"), "", "core.py", '    if engine == "numbagg" and _is_arg_reduction(func) and (any_by_dask or is_duck_dask_array(array)):', '    if _is_arg_reduction(func) and engine == "numbagg" and (is_duck_dask_array(array) or any_by_dask):', expect="silent"),
     V("blueprint getter builds its value incrementally in self", ("C13",), "R-GETTER", "aggregations.py", '    @cached_property\n    def new_dims(self) -> tuple[Dim]:\n        return self.new_dims_func(**self.finalize_kwargs)\n', '    @property\n    def new_dims(self) -> tuple[Dim]:\n        if not getattr(self, "_new_dims", None):\n            self._new_dims = ()\n            for d in self.new_dims_func(**self.finalize_kwargs):\n                self._new_dims += (d,)\n        return self._new_dims\n', must_mention="half-built"),
     V("twin: blueprint getter recomputed on every read", ("C13",), "", "aggregations.py", '    @cached_property\n    def new_dims(self) -> tuple[Dim]:\n        return self.new_dims_func(**self.finalize_kwargs)\n', '    @property\n    def new_dims(self) -> tuple[Dim]:\n        return self.new_dims_func(**self.finalize_kwargs)\n', expect="silent"),
+    V("all-missing block answered with an untyped NaN label", ("C12", "C19"), "R-PLACEHOLDER", "core.py", '            results["groups"] = np.array([np.nan]).astype(by.dtype if by.dtype.kind in "fcmM" else np.float64)', '            results["groups"] = np.array([np.nan])', must_mention="DTypePromotionError"),
+    V("twin: typed placeholder built with np.full", ("C12", "C19"), "", "core.py", '            results["groups"] = np.array([np.nan]).astype(by.dtype if by.dtype.kind in "fcmM" else np.float64)', '            results["groups"] = np.full((1,), np.nan).astype(by.dtype if by.dtype.kind in "fcmM" else np.float64)', expect="silent"),
     V("dtype promotion memoised with an untyped key", ("C14",), "R-MEMO", "xrdtypes.py", '        dtype = np.result_type(dtype, fill_value)\n    return dtype\n',
       '        dtype = _promote_for_fill_value(dtype, fill_value)\n    return dtype\n\n\n@functools.lru_cache\ndef _promote_for_fill_value(dtype: np.dtype, fill_value) -> np.dtype:\n    return np.result_type(dtype, fill_value)\n', must_mention="typed"),
     V("twin: dtype promotion memoised with typed=True", ("C14",), "", "xrdtypes.py", '        dtype = np.result_type(dtype, fill_value)\n    return dtype\n',
